@@ -38,6 +38,7 @@ type CutJSON struct {
 	Vars    []string `json:"vars"`
 	Bounds  map[string][2]string `json:"bounds,omitempty"` // per-variable [lo, hi] overriding lo/hi
 	Alias   string               `json:"alias,omitempty"`
+	Mem     []string             `json:"mem,omitempty"` // "param:n" array cells behind a pointer parameter
 }
 
 type Mutant struct {
@@ -313,7 +314,7 @@ func newMachine(prog *ssa.Program, h HarnessSpec) *Machine {
 	}
 	m.fieldTypes = h.Field
 	for _, c := range h.Cuts {
-		cs := cutSpec{fn: c.Fn, trigger: c.Trigger, line: c.Line, param: c.Param, mode: c.Mode, vars: c.Vars, alias: c.Alias}
+		cs := cutSpec{fn: c.Fn, trigger: c.Trigger, line: c.Line, param: c.Param, mode: c.Mode, vars: c.Vars, alias: c.Alias, mem: c.Mem}
 		if c.Lo != "" {
 			cs.lo, _ = new(big.Int).SetString(c.Lo, 10)
 			cs.hi, _ = new(big.Int).SetString(c.Hi, 10)
